@@ -112,6 +112,9 @@ func conv(v reflect.Value) *Tree {
 			t.Names = append(t.Names, f.Name)
 			t.Kids = append(t.Kids, conv(st.Field(i)))
 		}
+		if v.Type() == funcTypeNodePtr {
+			canonResults(t)
+		}
 		return t
 	case reflect.Slice:
 		t := &Tree{Kind: KList, RT: v.Type()}
@@ -128,6 +131,40 @@ func conv(v reflect.Value) *Tree {
 			return &Tree{Kind: KLeaf, RT: posType, Leaf: l, IsPos: true}
 		}
 		return &Tree{Kind: KLeaf, RT: v.Type(), Leaf: fmt.Sprint(v.Interface()), Val: v.Interface()}
+	}
+}
+
+var (
+	funcTypeNodePtr  = reflect.TypeOf((*ast.FuncType)(nil))
+	fieldListNodePtr = reflect.TypeOf((*ast.FieldList)(nil))
+	fieldSliceType   = reflect.TypeOf([]*ast.Field(nil))
+)
+
+// canonResults gives the result list of a function type one spelling: a
+// list in parentheses, empty for a function without results. "func() T" and
+// "func() (T)", "func()" and "func() ()" are the same lists of results.
+func canonResults(ft *Tree) {
+	valid := func() *Tree { return &Tree{Kind: KLeaf, RT: posType, Leaf: "valid", IsPos: true} }
+	for i, name := range ft.Names {
+		if name != "Results" {
+			continue
+		}
+		res := ft.Kids[i]
+		if res.Kind == KNil {
+			ft.Kids[i] = &Tree{Kind: KNode, RT: fieldListNodePtr, Names: []string{"Opening", "List", "Closing"},
+				Kids: []*Tree{valid(), {Kind: KList, RT: fieldSliceType}, valid()}}
+			return
+		}
+		for j, fn := range res.Names {
+			switch fn {
+			case "Opening", "Closing":
+				res.Kids[j] = valid()
+			case "List":
+				if res.Kids[j].Kind == KNil {
+					res.Kids[j] = &Tree{Kind: KList, RT: fieldSliceType}
+				}
+			}
+		}
 	}
 }
 
